@@ -376,7 +376,9 @@ func c15Proto(env *core.Env, kind string, valueUs int64, tz string, prec int32) 
 		env.Violatef("C15/proto-sys/"+cls+"/value-differs", "%s (%q): system.From gives %s", d, s, fx.Render(sv))
 		return
 	}
-	if kind != "Instant" && kind != "Time" && p2 != nil && prec <= 3 {
+	if prec == 0 {
+		// no precision given: the System value was compared above; the element built back carries an explicit precision
+	} else if kind != "Instant" && kind != "Time" && p2 != nil && prec <= 3 {
 		// date-only precisions: the element's value is its civil date down to the precision (a date has no
 		// offset; the proto's zone and the digits of value_us below the precision are not part of the value)
 		var s3 string
@@ -406,6 +408,9 @@ func canonicalProto(kind string, us int64, tz string, prec int32) bool {
 	off, ok := tzOffsetSeconds(tz)
 	if !ok {
 		return false
+	}
+	if prec == 0 {
+		return false // no precision: a parsed text always carries one
 	}
 	if kind == "Time" || kind == "Instant" {
 		switch prec {
@@ -831,6 +836,14 @@ func runC15(env *core.Env) {
 				v += micros
 			}
 			c15Proto(env, "DateTime", v, tz, p)
+			if p == 6 {
+				// elements built in code without a precision (PRECISION_UNSPECIFIED): whatever the helpers take that
+				// to mean, they take it to mean the same thing
+				c15Proto(env, "Instant", v, tz, 0)
+				c15Proto(env, "DateTime", v, tz, 0)
+				c15Proto(env, "Time", secs*1000000+micros, "", 0)
+				c15Proto(env, "Date", us-secs*1000000, tz, 0)
+			}
 			if p >= 4 { // Instant precisions SECOND=1..MICROSECOND=3
 				c15Proto(env, "Instant", v, tz, p-3)
 				tv := secs * 1000000
